@@ -3,7 +3,7 @@ stored direction sequence starts (metamorphic monitor over pairs of recorded exe
 import numpy as np
 
 from vf import gen, ops as O
-from vf.compare import compare, align_to
+from vf.compare import compare, align_to, compare_parts, compare_cancel, CANCEL
 from vf.oracle import peaks as P
 
 TRANSFORMS = ["permute", "fortran", "strided", "widen", "roll", "roll_seam", "reverse", "sortby"]
@@ -130,29 +130,6 @@ def one(ctx, rng, xr, ops, names):
                                 "diff": det}, classify(name, T, det, x, y))
 
 
-CANCEL = {"dspr": 1.0, "dpspr": 1.0, "swe": 0.02, "sw": 0.02, "gw": None}
-
-
-def compare_cancel(ra, rb, f32, name):
-    """Quantities of the form sqrt(small difference): decided only where the value is well above
-    the rounding floor (degrees for spreads, dimensionless widths); NaN at the floor is not decided."""
-    rb = align_to(rb, ra)
-    a = np.asarray(ra.compute().values, dtype="float64")
-    b = np.asarray(rb.compute().values, dtype="float64")
-    if name == "gw":
-        floor = 0.05 * np.nanmax(np.abs(a)) if np.isfinite(a).any() else np.inf
-    else:
-        floor = CANCEL[name] * (1.0 if f32 else 0.05)
-    m = np.isfinite(a) & np.isfinite(b) & (a > floor) & (b > floor)
-    if not m.any():
-        return None, None
-    rt = 5e-3 if f32 else 1e-6
-    bad = np.abs(a[m] - b[m]) > rt * np.abs(a[m])
-    if bad.any():
-        return False, {"reason": "values differ", "a": a, "b": b}
-    return True, None
-
-
 def classify(name, T, det, x, y):
     """Mechanism keys of the defects once present on this tree (all repaired; listed as fixed)."""
     lay = y.values.flags
@@ -164,29 +141,3 @@ def classify(name, T, det, x, y):
     if d.size > 2 and abs(abs(d[1] - d[0]) - abs(d[2] - d[1])) > 1e-9 and isinstance(det, dict) and det.get("reason") == "values differ":
         return "dd-from-first-two-stored-directions"
     return None
-
-
-def compare_parts(ra, rb, nfixed):
-    """Watershed results: wind-sea slots in place, remaining partitions as a multiset per position."""
-    try:
-        rb = align_to(rb, ra)
-    except (ValueError, KeyError) as e:
-        return False, {"reason": "cannot align by labels", "error": repr(e)[:300]}
-    a = np.asarray(ra.transpose("part", ..., "freq", "dir").values)
-    b = np.asarray(rb.transpose("part", ..., "freq", "dir").values)
-    if a.shape != b.shape:
-        return False, {"reason": "shape", "a": a.shape, "b": b.shape}
-    P_ = a.shape[0]
-    a = a.reshape(P_, -1, a.shape[-2] * a.shape[-1])
-    b = b.reshape(P_, -1, b.shape[-2] * b.shape[-1])
-    for pos in range(a.shape[1]):
-        for k in range(nfixed):
-            if not np.array_equal(a[k, pos], b[k, pos]):
-                return False, {"reason": "wind-sea partition differs", "part": k, "position": pos}
-        sa = sorted(a[k, pos].tobytes() for k in range(nfixed, P_))
-        sb = sorted(b[k, pos].tobytes() for k in range(nfixed, P_))
-        if sa != sb:
-            return False, {"reason": "set of swell partitions differs", "position": pos,
-                           "nonzero_bins_a": [int((a[k, pos] != 0).sum()) for k in range(P_)],
-                           "nonzero_bins_b": [int((b[k, pos] != 0).sum()) for k in range(P_)]}
-    return True, None
